@@ -291,6 +291,7 @@ def emit_fn(asm, fnrec, sig, body, contract, ret_name):
                 if body[ls_:kwpos].strip() == '':
                     body = body[:ls_] + '\n'.join(L['before']) + '\n' + body[ls_:]
                     kwpos += len('\n'.join(L['before'])) + 1
+                    ob += len('\n'.join(L['before'])) + 1
                 else:
                     raise ExtractError('%s: loop %d is not at the start of a statement line (cannot place ghost snapshot)' % (fnrec.name, n))
             if L['iter'] and kw == 'for':
